@@ -57,6 +57,8 @@ def run_crash(ck, P, tag, in_scope):
             prop = "C03"
         if why.startswith("abnormal termination"):
             prop = "C10"
+        if prop == "?":
+            prop = in_scope[0] if isinstance(in_scope, (list, tuple)) else sorted(in_scope)[0]   # a reason nobody claims is never dropped
         if prop not in in_scope:
             other += 1
             continue
